@@ -458,9 +458,14 @@ func (x *Exec) call(st *State, i *ssa.Call) bool {
 		}
 		pre = &HeapSnap{heaps: hs, epoch: st.epoch, now: st.now}
 	}
+	nlog := len(st.callLog)
 	ok := x.callCommon(st, c, i, i.Pos(), args, fv)
 	if ok && len(st.stack) == depth && pre != nil {
-		x.ghostAsserts(st, top, c, i.Pos(), pre)
+		resolved := ""
+		if len(st.callLog) > nlog {
+			resolved = st.callLog[nlog] // the callee as resolved by callCommon (closures called through local cells)
+		}
+		x.ghostAsserts(st, top, c, i.Pos(), pre, resolved)
 	}
 	return ok
 }
@@ -468,9 +473,11 @@ func (x *Exec) call(st *State, i *ssa.Call) bool {
 // ghostAsserts proves, then assumes, the contract's `assert after:<callee-substring> <name> <sx>` clauses at the
 // program point right after a matching call of the function under verification (a ghost assert: it guides the
 // solver with an intermediate fact and adds no assumption, because the fact is itself an obligation).
-func (x *Exec) ghostAsserts(st *State, fr *Frame, c *ssa.CallCommon, pos token.Pos, pre *HeapSnap) {
+func (x *Exec) ghostAsserts(st *State, fr *Frame, c *ssa.CallCommon, pos token.Pos, pre *HeapSnap, resolved string) {
 	name := ""
-	if c.IsInvoke() {
+	if resolved != "" {
+		name = resolved
+	} else if c.IsInvoke() {
 		name = c.Method.Name()
 	} else if sc := c.StaticCallee(); sc != nil {
 		name = x.funcKeyOf(sc)
